@@ -43,6 +43,8 @@ def make_case(rng, nobs, spacing, labeling, kind, zero_sum=False):
     else:
         x = np.round(3000 * np.sin(t / 40.0) + rng.normal(0, 400, nobs) + rng.integers(-4000, 4000))
     x = np.clip(x, -10000, 10000).astype(int)
+    if kind == "random" and rng.random() < 0.5:
+        x[rng.choice(nobs, size=max(1, nobs // 6), replace=False)] = 0        # observations that are exactly zero
     if zero_sum and nobs >= 3:
         # observations that sum to exactly zero (anomalies, a line crossing zero at mid-record)
         if kind == "linear" and spacing > 0 and (spacing * (nobs - 1)) % 2 == 0:
